@@ -49,7 +49,8 @@ def cases(tier):
     for ik in explicit:
         for kind, dim, mkind in [("euclid", 1, "diag"), ("gauss", 1, "diag")] + ([("euclid", 2, "diag"), ("euclid", 2, "dense"), ("gauss", 2, "diag")] if th else []):
             G(f"order2/{ik}/{kind}/{dim}/{mkind}", "order2", {"ikind": ik, "kind": kind, "dim": dim, "mkind": mkind})
-    for ik in ("implicit_leapfrog", "implicit_midpoint", "implicit_leapfrog_steffensen"):
+    # (the Steffensen solver needs np.finfo of the iterate's dtype and cannot run on symbolic series: not covered)
+    for ik in ("implicit_leapfrog", "implicit_midpoint"):
         for kind, dim, mkind in [("euclid", 1, "diag"), ("scalar", 1, "diag"), ("diagonal", 1, "diag")] + ([("scalar", 2, "diag"), ("cholesky", 1, "diag"), ("dense", 1, "diag")] if th else []):
             if ik.endswith("steffensen") and kind != "euclid":
                 continue
